@@ -59,7 +59,7 @@ def check_c17(tier, replay):
         v.notes["scripts"] = n
         # 3. execute: bubble (virtual clock, synchronous timer channels), then real time under both semantics
         env = dict(VERIF_IN=ind, VERIF_OUT=outd, SCHED_RUNS=200 if th else 40)
-        rc, out = vlib.go_test("./scheddrv", "TestSchedScripts$|TestSchedDriveBubble$", env, timeout=2400)
+        rc, out = vlib.go_test("./scheddrv", "TestSchedScripts$|TestSchedDriveBubble$", env, timeout=900 if th else 240)
         if rc != 0:
             if "deadlock" in out or "panic: test timed out" in out:
                 v.violation("C17/Livelock", "the scheduler never let the virtual clock advance or a worker blocked for good:\n" + out[-1500:],
